@@ -13,6 +13,7 @@ known_findings.json was found and replayed (a line
 import argparse
 import fcntl
 import hashlib
+import atexit
 import json
 import os
 import shutil
@@ -231,6 +232,22 @@ def scratch_root():
     die("no scratch directory available")
 
 
+WORKERS = []
+
+
+def kill_workers():
+    """No worker may outlive the driver (a worker whose run computes for ever would otherwise keep a core busy)."""
+    for p in WORKERS:
+        if p.poll() is None:
+            try:
+                p.kill()
+            except OSError:
+                pass
+
+
+atexit.register(kill_workers)
+
+
 def run_worker(binary, job, jobfile, timeout):
     with open(jobfile, "w") as f:
         json.dump(job, f)
@@ -249,6 +266,7 @@ def run_worker(binary, job, jobfile, timeout):
     logf = open(jobfile + ".log", "w")
     p = subprocess.Popen([binary, "-test.run", "^TestWorker$", "-test.timeout", "0"], env=e, stdout=logf, stderr=subprocess.STDOUT, text=True)
     p.logpath = jobfile + ".log"
+    WORKERS.append(p)
     logf.close()
     return p
 
